@@ -31,6 +31,12 @@ theorem exclusive_use_all_interleavings (as : List Sys.Action) (h : ∀ a ∈ as
     (h2 : ((Sys.run C05.current Sys.init as).tasks t2).pc = .io c ∨ ((Sys.run C05.current Sys.init as).tasks t2).pc = .closing c) :
     t1 = t2 := C01.exclusive_use as h c t1 t2 h1 h2
 
+/-- **C08.close_marks_closed_first** — the lock-free `close()` of an HTTP/1.1 connection marks it CLOSED before it touches the
+socket (regenerated from the source). The gate runs under the state lock but `close()` does not: this order is what makes a
+thread that reaches the gate after another thread began closing get ConnectionNotAvailable (and a fresh connection) instead of
+a socket that is being closed under it. -/
+theorem close_marks_closed_first : Gen.h1CloseMarksClosedFirst = true := by decide
+
 def demoCfg : Cfg := { maxConn := 1, maxKeepalive := 1, newAvail := fun _ => false, countIdleOnly := true }
 def demoState : State :=
   { conns := [{ id := 0, origin := 0, closed := false, expired := false, idle := true, available := true }],
